@@ -136,6 +136,7 @@ func orchestrate(r *ev.Run) {
 	for i := 0; i < nb; i++ {
 		add(fmt.Sprintf("build/%d/%d", i, nb))
 	}
+	add("dispatch/0/1")
 	for i := 0; i < n; i++ {
 		add(fmt.Sprintf("enum/%d/%d", i, n))
 	}
@@ -201,6 +202,8 @@ func worker(r *ev.Run, spec string) {
 		if wi == 0 {
 			r.Extra["seconds_worker0"] = map[string]float64{"part2_hours": t1.Sub(t0).Seconds(), "part1_config": time.Since(t1).Seconds()}
 		}
+	case "dispatch":
+		runDispatch(r, k)
 	case "build":
 		t0 := time.Now()
 		runBuild(r, k, wi, wn, deadline)
